@@ -37,7 +37,7 @@ for _n in ("BMCI.predict", "BMCI.cdf", "BMCI.predict_quantiles"):
 
 from pyvc import models as _models
 _models._ALWAYS.add(_np.zeros)          # result vectors receive symbolic stores: np.zeros(k) is a symbolic array here
-is_pd, is_psd, psd_instance, is_nan = _npm.is_pd, _npm.is_psd, _npm.psd_instance, _npm.is_nan
+is_pd, is_psd, psd_instance, is_nan, is_array = _npm.is_pd, _npm.is_psd, _npm.psd_instance, _npm.is_nan, _npm.is_array
 
 
 # ------------------------------------------------------------------ specification functions
@@ -101,6 +101,11 @@ def wf_sorted(self):
     return forall(0, n, lambda i: forall(0, n, lambda j: implies(i < j, self.pc1_proj[i] <= self.pc1_proj[j])))
 
 
+def wf_search(self):
+    """what the window search needs of the invariant"""
+    return self.n >= 1 and self.pc1_e > 0 and wf_sorted(self)
+
+
 def wf_proj(self):
     n = self.n
     return forall(0, n, lambda i: self.pc1_proj[i] == proj(self, row(self, i))) and wf_sorted(self)
@@ -119,9 +124,9 @@ def wf(self):
     return wf_sym(self) and wf_unit(self) and is_psd(self.s_o_inv) and wf_proj(self) and wf_xsorted(self) and wf_eig_all(self)
 
 
-for _f in (chi2, w, proj, row, wf, wf_sym, wf_eig, wf_eig_all, wf_unit, wf_sorted, wf_proj, wf_xsorted):
+for _f in (chi2, w, proj, row, wf, wf_sym, wf_eig, wf_eig_all, wf_unit, wf_sorted, wf_search, wf_proj, wf_xsorted):
     _f.__pyvc_thm__ = True
-ENV = dict(chi2=chi2, w=w, proj=proj, row=row, wf=wf, wf_sym=wf_sym, wf_sorted=wf_sorted, wf_eig=wf_eig, wf_eig_all=wf_eig_all, wf_unit=wf_unit, wf_proj=wf_proj, wf_xsorted=wf_xsorted, is_pd=_npm.is_pd, is_psd=_npm.is_psd, psd_instance=_npm.psd_instance,
+ENV = dict(chi2=chi2, w=w, proj=proj, row=row, wf=wf, wf_sym=wf_sym, wf_sorted=wf_sorted, wf_search=wf_search, wf_eig=wf_eig, wf_eig_all=wf_eig_all, wf_unit=wf_unit, wf_proj=wf_proj, wf_xsorted=wf_xsorted, is_pd=_npm.is_pd, is_psd=_npm.is_psd, psd_instance=_npm.psd_instance,
            is_nan=_npm.is_nan)
 
 
@@ -183,6 +188,7 @@ def _mk_self(ctx, m):
     self.pc1_proj = _fa(ctx, "proj", (n,))
     self.x_sorted_inds = _fa(ctx, "xsi", (n,), "int")
     self.x_sorted_inds.ghost_inverse = _fa(ctx, "xsi_inv", (n,), "int")
+    self.ghost_k = ctx.fresh("k_any", "int")          # an arbitrary position (for pointwise statements about results)
     return self
 
 
@@ -301,7 +307,7 @@ def _w_result(ctx, env):
 c_w = contract(M + "BMCI.weights", prop=P, setup=_setup_w, pure=False, env=ENV,
                configs=[dict(c, mode=md) for c in _CFG_MF for md in ("all", "window")],
                result=_w_result,
-               requires=["wf(self)"],
+               requires=["wf_search(self)"],
                ensures=["weights_post(self, vec(y_obs), x2_max, result[0], result[1], result[2])"],
                canaries=["result[0] == result[1]"])
 
@@ -346,7 +352,84 @@ for _f in (wsum, wmean, wvar, predict_post):
 _CFG_MM = [{"m": m, "mode": md} for m in _MS for md in ("all", "window")]
 c_predict = contract(M + "BMCI.predict", prop=P, setup=_setup_obs2d, pure=False, env=ENV, configs=_CFG_MM,
                      result=lambda ctx, env: (_fa(ctx, "xs", (1,)), _fa(ctx, "sigmas", (1,))),
-                     requires=["wf(self)"],
+                     requires=["wf_search(self)"],
                      ensures=["len(result[0]) == 1 and len(result[1]) == 1",
                               "predict_post(self, vec(y_obs), x2_max, _locals['i_l'], _locals['i_u'], result[0][0], result[1][0])"],
                      canaries=["is_nan(result[0][0])"])
+
+
+# ------------------------------------------------------------------ cdf
+def _setup_cdf(ctx, cfg):
+    self = _mk_self(ctx, cfg["m"])
+    x2 = ctx.fresh("x2_max", "real")
+    if cfg["mode"] == "all":
+        ctx.assume(x2 < 0)
+    else:
+        ctx.assume(x2 >= 0)
+    return dict(self=self, y_obs=_fa(ctx, "yobs", (cfg["m"],)), x2_max=x2)
+
+
+def steps_up(a):
+    """a[k] <= a[k+1] for every adjacent pair"""
+    return forall(0, len(a) - 1, lambda k: a[k] <= a[k + 1])
+
+
+def nondecreasing(a):
+    n = len(a)
+    return forall(0, n, lambda k: forall(0, n, lambda l: implies(k < l, a[k] <= a[l])))
+
+
+def only_window(self, i_l, i_u, xs, inds):
+    """every reported value is the x of a window entry (ghost: inds[k] = its offset in the window)"""
+    return len(inds) == len(xs) and forall(0, len(xs), lambda k: 0 <= inds[k] and inds[k] < i_u - i_l and xs[k] == self.x[i_l + inds[k]])
+
+
+def all_window(self, i_l, i_u, xs):
+    # stated over the positions p of the x-sorted order (x_sorted_inds is a bijection of the entries, wf_xsorted)
+    xsi = self.x_sorted_inds
+    return forall(0, self.n, lambda p: implies(i_l <= xsi[p] and xsi[p] < i_u, exists(0, len(xs), lambda k: xs[k] == self.x[xsi[p]])))
+
+
+def has_weight(total, xs):
+    return len(xs) >= 1 and total > 0
+
+
+def positive_weights(ws):
+    return forall(0, len(ws), lambda k: ws[k, 0] > 0)
+
+
+def cdf_nan(total, xs, F):
+    """NaN (not an array, not an exception) exactly when no entry has non-zero weight"""
+    return has_weight(total, xs) if is_array(F) else (not has_weight(total, xs)) and is_nan(F)
+
+
+def cdf_ends_at_one(total, xs, F):
+    return (len(F) == len(xs) and F[len(xs) - 1] == 1) if is_array(F) else True
+
+
+def cdf_starts_nonneg(total, xs, F):
+    return F[0] >= 0 if is_array(F) else True
+
+
+def cdf_steps_up(total, xs, F, k):
+    """F[k] <= F[k+1] for an ARBITRARY position k (a fresh constant of the setup: universally quantified)"""
+    return implies(0 <= k and k < len(F) - 1, F[k] <= F[k + 1]) if is_array(F) else True
+
+
+for _f in (only_window, all_window, positive_weights, has_weight, cdf_nan, cdf_ends_at_one, cdf_starts_nonneg, cdf_steps_up):
+    _f.__pyvc_thm__ = True
+    ENV[_f.__name__] = _f
+ENV.update(nondecreasing=nondecreasing, steps_up=steps_up)
+steps_up.__pyvc_thm__ = True
+nondecreasing.__pyvc_thm__ = True
+c_cdf = contract(M + "BMCI.cdf", prop=P, setup=_setup_cdf, pure=False, env=ENV, configs=_CFG_MM,
+                 result=lambda ctx, env: (_fa(ctx, "xs", (ctx.fresh("cnt", "int"),)), _fa(ctx, "F", (ctx.fresh("cnt2", "int"),))),
+                 requires=["wf_search(self)", "wf_xsorted(self)"],
+                 ensures=["nondecreasing(result[0])",                                   # the x values of the window, ascending
+                          "only_window(self, _locals['i_l'], _locals['i_u'], result[0], _locals['inds'])",
+                          "all_window(self, _locals['i_l'], _locals['i_u'], result[0])",
+                          "positive_weights(_locals['ws'])",                                  # step: exp(.) > 0
+                          "cdf_nan(ssum(len(_locals['ws']), lambda k: _locals['ws'][k, 0]), result[0], result[1])",
+                          "cdf_ends_at_one(0, result[0], result[1])",
+                          "cdf_starts_nonneg(0, result[0], result[1])",
+                          "cdf_steps_up(0, result[0], result[1], self.ghost_k)"])
